@@ -850,14 +850,19 @@ Qed.
    counters, so in_count - out_count is unchanged and in_count stays >= 1;
    out_count is written by the worker only, and the worker holds no stale
    copy of it here (oc T is not constrained at GFfwd / GHead) *)
-Lemma FFAMT_nonneg : (0 <= FFAMT)%Z.
-Proof. unfold FFAMT. lia. Qed.
+Lemma ffamt_nonneg j : (0 <= ffamt j)%Z.
+Proof.
+  unfold ffamt, FFAMT. do 8 (destruct j as [|j]; [cbn [nth]; lia|]). destruct j; cbn [nth]; lia.
+Qed.
+
+Lemma ffof_nonneg T : (0 <= ffof T)%Z.
+Proof. unfold ffof. destruct (mk T); [apply ffamt_nonneg|lia]. Qed.
 
 Lemma gffwd_inv s al pl hl pe w t :
   Inv s al pl hl pe w -> pc (thr s t) = GFfwd -> Inv (fst (step s t)) al pl hl pe w.
 Proof.
   intros I Hpc. open_step Hpc. wfacts I t Hpc. destruct W as [Wh Wc].
-  assert (P := FFAMT_nonneg).
+  assert (P := ffof_nonneg (thr s t)).
   apply worker_step with (w := w) (hl := hl); [exact I|exact F|exact Hh|reflexivity| | | | | |].
   - rewrite Htd. reflexivity.
   - unfold ppart; cbn [pc flag with_pc]. exact F.
